@@ -94,6 +94,7 @@ def jobs_c10(prop, tier, seed):
     for k in range(6 if quick else 40):
         execs.append((hdr, random_cmds(rng, 30)))
     execs.append(({"cont": "pool", "elem": "-", "n": 40}, []))
+    execs.append(({"cont": "sharedeq", "elem": "-"}, []))  # shared allocators (joint_allocator) and operator!=
     execs.append(({"cont": "anyeq", "elem": "-"}, []))     # exhibits the listed open finding F10
     # ... and what it does to a container: libstdc++ clears the target of a copy assignment before it takes the
     # source's allocator only if the two allocators compare unequal; any_std_allocator compares equal always, so the
